@@ -100,6 +100,8 @@ class Recorder:
             self.cur['push'].append([src, dst, 'R' if kind == 'push_req' else 'P', int(what), arg, bool(iso)])
         elif kind == 'rpc_fail':
             self.cur['rpcfail'].append([src, dst])
+        elif kind == 'push_not' and rec[4] == 5:
+            self.cur['nfail'].append([src, rec[5]])
         elif kind == 'sup_order':
             self.cur['orders'].append([src, rec[4]])
         self.cur['touched'].add(src)
@@ -108,7 +110,7 @@ class Recorder:
     # -- steps -------------------------------------------------------------------------------------------------
     def begin(self, a, n, d='', k=''):
         self.cur = {'a': a, 'n': n, 'd': d, 'k': k, 'pubs': [], 'ipubs': [], 'push': [], 'rpcfail': [],
-                    'orders': [], 'touched': {n} | ({d} if d else set()), 'user': False}
+                    'orders': [], 'nfail': [], 'touched': {n} | ({d} if d else set()), 'user': False}
         self.c.errors = []
 
     def end(self, extra=None):
